@@ -283,6 +283,9 @@ def gen_message(rng, enums, cov, version=4):
                 bl = []
                 for _ in range(rng.choice([0, 1, 2, 3])):
                     bu = uu()
+                    if 0 not in used and rng.random() < 0.08:
+                        bu = 0
+                        used.add(0)
                     if rng.random() < 0.55:
                         bl.append([bnd_u64(rng), [0, ub(bu), bnd_u64(rng), rng.choice(enums["DecodeMode"])]])
                         mcodes.append(bu)
@@ -300,6 +303,10 @@ def gen_message(rng, enums, cov, version=4):
         entry = []
         if codes and rng.random() < 0.6:
             entry = ub(rng.choice(codes))
+            # boundary: the nil UUID (16 zero bytes) is a UUID like any other
+            if 0 in codes and rng.random() < 0.8:
+                entry = ub(0)
+                cov.hit("msg-entry-point-nil-uuid")
         syms = []
         for _ in range(rng.choice([0, 1, 2, 4])):
             r = rng.random()
